@@ -324,6 +324,28 @@ func RunScenario(t *testing.T, sc *Scenario, tape *core.Tape, j *core.Journal, k
 	return res
 }
 
+func (s *Sim) databases() int {
+	if s.k.Databases > 1 {
+		return s.k.Databases
+	}
+	return 1
+}
+
+// dumpAll is the canonical dump of every numbered database of a manager (one
+// database: exactly memdb's dump; several: each line prefixed by its database).
+func dumpAll(m *server.Manager) []string {
+	if len(m.DBs) == 1 {
+		return m.DBs[0].VerifDump(false)
+	}
+	var out []string
+	for i, db := range m.DBs {
+		for _, l := range db.VerifDump(false) {
+			out = append(out, fmt.Sprintf("db%d %s", i, l))
+		}
+	}
+	return out
+}
+
 func nodeURL(id int) string { return fmt.Sprintf("http://127.0.0.1:%d", 20000+id) }
 
 func (s *Sim) peerAddrs(n int) string {
@@ -434,7 +456,7 @@ func (s *Sim) startNode(ns *nodeState, dir string, join bool) {
 	s.incs = append(s.incs, inc)
 	s.mu.Unlock()
 	n := len(s.nodes)
-	cfg := &config.Config{ShardNum: s.k.ShardNum, Databases: 1, ChanBufferSize: 10, LogLevel: "panic", IsCluster: true,
+	cfg := &config.Config{ShardNum: s.k.ShardNum, Databases: s.databases(), ChanBufferSize: 10, LogLevel: "panic", IsCluster: true,
 		NodeID: ns.id, RaftAddr: nodeURL(ns.id), PeerAddrs: s.peerAddrs(n), JoinCluster: join}
 	config.Configures = cfg
 	inc.vn = server.VerifStartCluster(inc.ctx, cfg)
@@ -781,7 +803,7 @@ func (s *Sim) checkAgreement() {
 			continue
 		}
 		ns.lastApplied, ns.lastAppliedInit = idx, true
-		dump := ns.inc.vn.Manager().DBs[0].VerifDump(false)
+		dump := dumpAll(ns.inc.vn.Manager())
 		hsh := core.HashString(strings.Join(dump, "\n"))
 		if prev, ok := s.dumpAt[idx]; ok {
 			if prev.hash != hsh && s.res.Diverge == nil {
